@@ -1,11 +1,15 @@
 (* Prop_C02.v — property C02 at the level of gosaml2's own code: a signature that is present but does not verify
    ([dsig] answers DErr: foreign key, trusted certificate with foreign key, altered content, certificate outside its window
    at the SP clock, certificate not in the store) is fatal for all four inbound kinds and is never downgraded to 'unsigned';
-   only the answer DMissing continues.  That the oracle is consulted with the CONFIGURED store and the SP's INJECTED clock is
+   only the answer DMissing continues — and, since the repair 541e863 (finding F12), only for a root that envelops no
+   ds:Signature child: goxmldsig answers "missing" whenever no signature REFERENCES the element's ID, also for a present
+   signature whose reference no longer matches (ID attribute edited or shadowed by a prefixed namesake), and that answer is
+   now an error (C02_enveloped_signature_never_downgraded; the code before the repair:
+   C02_present_signature_downgraded_before_repair_refuted).  That the oracle is consulted with the CONFIGURED store and the SP's INJECTED clock is
    tied by the correspondence run (the harness computes the oracle answers with exactly that store and clock, certificates
    valid only around the fake clock).  The certificate rules themselves live in goxmldsig (see Dsig.v when present). *)
 From Coq Require Import Permutation.
-From V Require Import Base Time Escape Xml Ns Types Profile Decode Response P_Ns P_Response Dsig P_Dsig.
+From V Require Import Base Time Escape Xml Ns Types Profile Decode Response P_Ns P_Response Dsig P_Dsig P_Downgrade.
 
 Theorem C02_bad_response_signature_fatal : forall dsig decrypt cfg now root,
   cfg_skip_sig cfg = false -> dsig root = DErr ->
@@ -34,6 +38,87 @@ Theorem C02_response_honoured_as_signed_only_if_oracle_verified : forall dsig de
   (r_signature_validated r = true <-> exists v, dsig root = DOk v).
 Proof. exact response_flag_iff. Qed.
 Print Assumptions C02_response_honoured_as_signed_only_if_oracle_verified.
+
+(* ---- a present signature is never handled as a missing one (repair 541e863) ----
+   [EnvelopedSignature root]: a direct child element of root resolves to {http://www.w3.org/2000/09/xmldsig#}Signature.
+   For every tree, every oracle behaviour, signature checking on: such a root is accepted only along the signed path (oracle
+   verified the root, result decoded from the verified tree, flag set) — for the Response and both logout messages — and
+   without a verifying root signature the result is an error other than "missing signature"; in particular the oracle answer
+   DMissing is turned into an error by validateElementSignature. *)
+Theorem C02_enveloped_signature_never_downgraded : forall dsig decrypt cfg now root,
+  cfg_skip_sig cfg = false -> EnvelopedSignature root ->
+  (forall r, validate_response_tree dsig decrypt cfg now root = Ok r ->
+     SignedPath dsig decrypt cfg now root r /\ r_signature_validated r = true /\ ~ UnsignedPath dsig decrypt cfg now root r) /\
+  (forall r, validate_logout_response_tree dsig cfg root = Ok r ->
+     exists v r0, dsig root = DOk v /\ unmarshal_logout_response v = Ok r0 /\ r = lr_with_flag r0 true) /\
+  (forall r, validate_logout_request_tree dsig cfg root = Ok r ->
+     exists v r0, dsig root = DOk v /\ unmarshal_logout_request v = Ok r0 /\ r = lq_with_flag r0 true) /\
+  ((forall v, dsig root <> DOk v) ->
+     (exists e, validate_response_tree dsig decrypt cfg now root = Err e /\ e <> EMissingSignature) /\
+     (exists e, validate_logout_response_tree dsig cfg root = Err e /\ e <> EMissingSignature) /\
+     (exists e, validate_logout_request_tree dsig cfg root = Err e /\ e <> EMissingSignature)) /\
+  (dsig root = DMissing -> validate_element_signature dsig root = DErr).
+Proof. exact enveloped_signature_never_downgraded. Qed.
+Print Assumptions C02_enveloped_signature_never_downgraded.
+
+(* the contrapositive, on the accepted result: a message accepted without the root flag (the unsigned path) has a root that
+   goxmldsig found no signature for AND that envelops no ds:Signature child *)
+Theorem C02_unsigned_path_means_no_enveloped_signature : forall dsig decrypt cfg now root,
+  cfg_skip_sig cfg = false ->
+  (forall r, validate_response_tree dsig decrypt cfg now root = Ok r -> r_signature_validated r = false ->
+     UnsignedPath dsig decrypt cfg now root r /\ dsig root = DMissing /\ ~ EnvelopedSignature root) /\
+  (forall r, validate_logout_response_tree dsig cfg root = Ok r -> lr_signature_validated r = false ->
+     dsig root = DMissing /\ ~ EnvelopedSignature root) /\
+  (forall r, validate_logout_request_tree dsig cfg root = Ok r -> lq_signature_validated r = false ->
+     dsig root = DMissing /\ ~ EnvelopedSignature root).
+Proof. exact unsigned_path_means_no_enveloped_signature. Qed.
+Print Assumptions C02_unsigned_path_means_no_enveloped_signature.
+
+(* what NSFindOneChild's three outcomes mean (Ns.v model: default context + the root's declarations + the child's own, one
+   visit of the 1000 budget per child element, first match): "none" only if there is none; a child answered is one; with such
+   a child the lookup answers a child or fails — it never reports absence *)
+Theorem C02_enveloped_signature_lookup_sound : forall root,
+  (ns_find_one_child root ds_ns ds_signature_tag = Ok None -> ~ EnvelopedSignature root) /\
+  (forall s, ns_find_one_child root ds_ns ds_signature_tag = Ok (Some s) -> EnvelopedSignature root) /\
+  (EnvelopedSignature root ->
+     (exists s, ns_find_one_child root ds_ns ds_signature_tag = Ok (Some s)) \/
+     (exists e, ns_find_one_child root ds_ns ds_signature_tag = Err e)).
+Proof.
+  intros root. exact (conj (ns_find_one_child_none root ds_ns ds_signature_tag)
+                       (conj (ns_find_one_child_some root ds_ns ds_signature_tag) (ns_find_one_child_has_child root ds_ns ds_signature_tag))).
+Qed.
+Print Assumptions C02_enveloped_signature_lookup_sound.
+
+(* the code BEFORE the repair (Response.*_original: validateElementSignature = goxmldsig's answer as it came): a Response,
+   a LogoutResponse and a LogoutRequest whose root envelops the IdP's Signature, with the root ID edited so that goxmldsig
+   answers "missing", are accepted as unsigned — the Response with an attacker-chosen InResponseTo and its individually
+   vouched assertion; the repaired model rejects all three.  Witness by computation. *)
+Theorem C02_present_signature_downgraded_before_repair_refuted :
+  exists dsig decrypt cfg now root lroot qroot,
+    cfg_skip_sig cfg = false /\
+    EnvelopedSignature root /\ dsig root = DMissing /\
+    (exists r, validate_response_tree_original dsig decrypt cfg now root = Ok r /\
+               r_signature_validated r = false /\ r_in_response_to r = "_request-of-the-attacker"%string /\
+               r_assertions r <> [] /\ Forall (Vouched dsig root) (r_assertions r)) /\
+    EnvelopedSignature lroot /\ dsig lroot = DMissing /\
+    (exists r, validate_logout_response_tree_original dsig cfg lroot = Ok r /\ lr_signature_validated r = false) /\
+    EnvelopedSignature qroot /\ dsig qroot = DMissing /\
+    (exists r, validate_logout_request_tree_original dsig cfg qroot = Ok r /\ lq_signature_validated r = false) /\
+    (exists e, validate_response_tree dsig decrypt cfg now root = Err e) /\
+    (exists e, validate_logout_response_tree dsig cfg lroot = Err e) /\
+    (exists e, validate_logout_request_tree dsig cfg qroot = Err e).
+Proof. exact present_signature_downgraded_before_repair. Qed.
+Print Assumptions C02_present_signature_downgraded_before_repair_refuted.
+
+(* non-vacuity: an enveloping root the oracle verifies is accepted (signed path); a root without a Signature child whose
+   assertion is individually signed is accepted (unsigned path) *)
+Theorem C02_enveloped_signature_examples :
+  (EnvelopedSignature w_response /\
+   exists r, validate_response_tree w_dsig_ok w_decrypt w_cfg w_now w_response = Ok r /\ r_signature_validated r = true) /\
+  (exists r, validate_response_tree w_dsig w_decrypt w_cfg w_now w_response_unsigned = Ok r /\ r_signature_validated r = false /\
+             r_assertions r <> []).
+Proof. exact (conj enveloped_and_verified_is_accepted unsigned_response_with_signed_assertion_is_accepted). Qed.
+Print Assumptions C02_enveloped_signature_examples.
 
 (* ---- the certificate rules themselves, on the model of the pinned signature library (Dsig.v; correspondence-checked
    against the real goxmldsig by the DSIG stream that this check runs as well) ---- *)
@@ -96,6 +181,30 @@ From V Require Import GenPreludeV GenVctx P_GenVctx.
 Theorem C02_source_validation_context_is_configured_store_and_clock : forall validate sp now el,
   G_validationContext sp now = PVal (Some {| vc_store := vs_store sp; vc_id_attribute := "ID"; vc_clock := vs_clock sp |}) /\
   G_validateElementSignature validate sp now el
-  = PVal (res_some (validate {| vc_store := vs_store sp; vc_id_attribute := "ID"; vc_clock := vs_clock sp |} el)).
+  = PVal (ves_res (validate {| vc_store := vs_store sp; vc_id_attribute := "ID"; vc_clock := vs_clock sp |}) el).
 Proof. intros validate sp now el. exact (conj (G_validationContext_is_model sp now) (G_validateElementSignature_is_model validate sp now el)). Qed.
 Print Assumptions C02_source_validation_context_is_configured_store_and_clock.
+
+(* the translated body of the repaired validateElementSignature, seen through the three outcomes its callers distinguish
+   (verified element / dsig.ErrMissingSignature / any other error), IS Response.validate_element_signature over goxmldsig's
+   Validate under the configured context — the function the tree-level model and the translated entry points use for the
+   Response root and both logout roots; it never panics *)
+Theorem C02_source_validateElementSignature_is_the_model : forall validate sp now el,
+  exists r, G_validateElementSignature validate sp now el = PVal r /\
+    dsig_of_res r
+    = validate_element_signature
+        (fun x => dsig_of_res (res_some (validate {| vc_store := vs_store sp; vc_id_attribute := "ID"; vc_clock := vs_clock sp |} x))) el.
+Proof. exact source_validateElementSignature_is_tree_model. Qed.
+Print Assumptions C02_source_validateElementSignature_is_the_model.
+
+(* the repaired clause for the translated entry points of this run *)
+Theorem C02_source_enveloped_signature_never_downgraded : forall parse dsig decrypt cfg now enc raw root,
+  cfg_skip_sig cfg = false -> b64_decode enc = Ok raw -> parse raw = Ok root -> EnvelopedSignature root ->
+  (forall r, G_ValidateEncodedResponse parse dsig (decrypt_assertions decrypt) cfg now enc = PVal (Ok (Some r)) ->
+     r_signature_validated r = true /\ exists v, dsig root = DOk v) /\
+  (forall r, G_ValidateEncodedLogoutResponsePOST parse dsig cfg now enc = PVal (Ok (Some r)) ->
+     lr_signature_validated r = true /\ exists v, dsig root = DOk v) /\
+  (forall r, G_ValidateEncodedLogoutRequestPOST parse dsig cfg now enc = PVal (Ok (Some r)) ->
+     lq_signature_validated r = true /\ exists v, dsig root = DOk v).
+Proof. exact source_enveloped_signature_never_downgraded. Qed.
+Print Assumptions C02_source_enveloped_signature_never_downgraded.
